@@ -97,13 +97,17 @@ def run(tier):
                 rep.ok("index-mut-precheck", "%s::index_mut<&str>" % st, {"panics_before_lookup": len(pre)})
         # (c) probe / hasher / hash / same map, for both siblings
         summaries = []
-        for f, re_name in ((impl, "::raw_entry"), (impl_mut, "::raw_entry_mut")):
+        for f0, re_name in ((impl, "::raw_entry"), (impl_mut, "::raw_entry_mut")):
+            # the lookup may sit in the function itself or in a closure it hands to an Option combinator (`as_mapping().and_then(|m| ..)`):
+            # analyse the body that contains it, with captured variables and the combinator's payload expressed in the function's terms
+            f, lift = _lookup_body(F, f0)
             fh = [(bb, t) for bb, t, ck, fr in f.calls() if ck and ck.endswith("::from_hash")]
             if len(fh) != 1:
-                rep.bad("probe", "%s::%s" % (st, f.name), "expected exactly one raw-entry from_hash lookup", site=f.span)
+                rep.bad("probe", "%s::%s" % (st, f0.name), "expected exactly one raw-entry from_hash lookup", site=f0.span)
                 continue
+            fullc = lambda fn_, op_, _l=lift: tables.normalize(_l(cfg.expr_operand(fn_, op_, 24)))
             t = fh[0][1]
-            recv, h, eqc = full(f, t["args"][0]), full(f, t["args"][1]), full(f, t["args"][2])
+            recv, h, eqc = fullc(f, t["args"][0]), fullc(f, t["args"][1]), fullc(f, t["args"][2])
             re = recv if recv[0] == "call" and recv[1].endswith(re_name) else None
             map_expr = re[2][0] if re else None
             # the hash: either hash_str_as_yaml_string(key, build_hasher(hasher(M))) or finish(hasher) with Hash::hash(needle, hasher) before
@@ -121,7 +125,7 @@ def run(tier):
                 hl = None
                 for bb2, t2, ck2, fr2 in f.calls():
                     if ck2 and ck2.endswith("Hash::hash"):
-                        needle = full(f, t2["args"][0])
+                        needle = fullc(f, t2["args"][0])
                         hl = cfg.borrowed_local(f, t2["args"][1])
                         want = _probe_shape(needle, ty)
                         probe_ok = want
@@ -137,10 +141,10 @@ def run(tier):
                             if ck2 and ck2.endswith("Hasher::finish"):
                                 fl = cfg.borrowed_local(f, t2["args"][0])
                         hasher_ok = hasher_ok and fl == hl
-            rep.check(re is not None and map_expr is not None and hasher_ok, "same-map-hasher", "%s::%s" % (st, f.name),
+            rep.check(re is not None and map_expr is not None and hasher_ok, "same-map-hasher", "%s::%s" % (st, f0.name),
                       "the probe is not hashed with a hasher built from the very map that is searched (hash of the probe and stored hashes then differ)",
-                      site=f.span, detail=det)
-            rep.check(probe_ok, "probe-shape", "%s::%s" % (st, f.name), "the probe is not Value(String(key.into())) hashed through Hash::hash", site=f.span, detail=det)
+                      site=f0.span, detail=det)
+            rep.check(probe_ok, "probe-shape", "%s::%s" % (st, f0.name), "the probe is not Value(String(key.into())) hashed through Hash::hash", site=f0.span, detail=det)
             # equality closure
             okq = eqc[0] == "closure"
             qd = None
@@ -152,8 +156,8 @@ def run(tier):
                 annotated = any(ck and (ck.endswith("PartialEq::eq") or ck.endswith("PartialEq::ne")) for ck in calls) and len(calls) == 1
                 okq = plain or annotated
                 qd = calls
-            rep.check(okq, "equality-closure", "%s::%s" % (st, f.name),
-                      "the lookup's equality test is neither `k.as_str() == key` nor `*candidate == needle`", site=f.span, detail=qd)
+            rep.check(okq, "equality-closure", "%s::%s" % (st, f0.name),
+                      "the lookup's equality test is neither `k.as_str() == key` nor `*candidate == needle`", site=f0.span, detail=qd)
             summaries.append(sorted(_canon(ck) for _, _, ck, _ in f.calls() if ck and not ck.endswith(("::map", "::into_mut", "::as_mapping", "::as_mapping_mut", "Into::into", "::to_string", "::to_owned"))))
         if len(summaries) == 2:
             rep.check(summaries[0] == summaries[1], "sibling-agreement", "%s::as_mapping_get(_mut)_impl" % st,
@@ -205,6 +209,57 @@ def run(tier):
     from . import C19
     C19.span_blind(rep, F, "eq-hash-same-fields")
     return rep
+
+
+def _place(base, rest):
+    rest = list(rest)
+    while rest:
+        if base[0] == "ref" and rest[0] == "deref":
+            base, rest = base[1], rest[1:]
+        elif base[0] == "place":
+            return ("place", base[1], list(base[2]) + rest)
+        else:
+            return ("place", base, rest)
+    return base
+
+
+def _lookup_body(F, f):
+    """(function that contains the raw-entry lookup, lifting of its expressions into f's terms)"""
+    if any(ck and ck.endswith("::from_hash") for _, _, ck, _ in f.calls()):
+        return f, (lambda e: e)
+    for g in F.closures_of(f.key):
+        if g.d.get("closure_of") != f.key or not any(ck and ck.endswith("::from_hash") for _, _, ck, _ in g.calls()):
+            continue
+        caps, payload = None, None
+        for bi, si, st in cfg.stmts(f):
+            if st["k"] == "assign" and st["rv"]["k"] == "agg" and st["rv"].get("agg") == "closure" and st["rv"].get("def") == g.key:
+                caps = [cfg.expr_operand(f, o, 16) for o in st["rv"]["ops"]]
+                cl = st["lhs"]["l"]
+                for bb, t, ck, fr in f.calls():
+                    if ck and ck.startswith("std::option::Option::") and any(is_local(a) == cl for a in t["args"][1:]):
+                        payload = _place(cfg.expr_operand(f, t["args"][0], 16), [("downcast", "Some"), ("field", "0")])
+        if caps is None:
+            continue
+
+        def lift(e, caps=caps, payload=payload):
+            if isinstance(e, list):
+                return [lift(x) for x in e]
+            if not isinstance(e, tuple):
+                return e
+            if e == ("param", 2) and payload is not None:
+                return payload
+            if e[0] == "place" and e[1] == ("param", 1):
+                proj = list(e[2])
+                if proj and proj[0] == "deref":
+                    proj = proj[1:]
+                if proj and isinstance(proj[0], tuple) and proj[0][0] == "field" and int(proj[0][1]) < len(caps):
+                    return _place(lift_id(caps[int(proj[0][1])]), proj[1:])
+            return tuple(lift(x) for x in e)
+
+        def lift_id(e):
+            return e
+        return g, lift
+    return f, (lambda e: e)
 
 
 def _canon(ck):
